@@ -295,7 +295,10 @@ def _c10_probe(st, target, sign, rng):
         return None
     V = sign * V
     scale = 1.0
-    if key == "ig" and rng.random() < 0.25:
+    # (not on a no-load probe: there the ground current is the component's own current iterate, and a change of a few nA is
+    #  below the absolute term 1e-8 A of the solver's stopping rule - it returns its start value; false alarm of the
+    #  thorough tier, seed 0)
+    if key == "ig" and not noload and rng.random() < 0.25:
         # nano-ampere ground currents: the rows of the table differ by less than 1e-8 A, and still differ
         scale = rng.choice([1e-5, 1e-6])      # (row differences of ~3e-8 A and of ~3e-9 A: around and below numpy's default atol)
         tab[key] = [[v * scale for v in row] for row in tab[key]]
